@@ -4,6 +4,7 @@ import Tmv.Lemmas.MerkleTraced
 import Tmv.Lemmas.MerkleDepth
 import Tmv.Model.PartSet
 import Tmv.Model.TxProof
+import Tmv.Lemmas.PartReader
 /-! # C10 — Block parts and Merkle proofs bind content to position
 Property theorems only. `H` is an arbitrary function; the only thing assumed about it is a fixed
 output length `L > 0` (true of SHA-256, needed to split `l ++ r`). Soundness theorems conclude
@@ -568,6 +569,145 @@ theorem honest_parts_validate (hlen : ∀ x, (H x).length = hashSize)
     intro a haa
     simpa using hal a haa
   simp [h1, h2, h3, h4, h5, h6]
+
+
+/-! ## Any committed leaves (not only the pieces `NewPartSetFromData` cuts), the reader, `HasHeader` -/
+
+/-- `complete_reassembles_traced` for ANY non-empty list of leaves the header commits to — pieces
+of any sizes, empty pieces included (a proposer need not cut with `NewPartSetFromData`): a part set
+made from the header `(pieces.length, root pieces)` and completed through `AddPart`, whatever was
+offered, holds exactly `pieces`, so it reassembles to their concatenation — unless one of the
+OFFERED parts collides with a node of the real tree. -/
+theorem complete_reassembles_leaves_traced (L : Nat) (hL : 0 < L) (hlen : ∀ x, (H x).length = L)
+    (pieces : List Bytes) (hne : pieces ≠ []) (offers : List Part)
+    (hcomplete : isComplete (addAll H (fromHeader pieces.length (root H pieces)) offers) = true) :
+    ((addAll H (fromHeader pieces.length (root H pieces)) offers).parts.map partBytes = pieces ∧
+      assemble (addAll H (fromHeader pieces.length (root H pieces)) offers) = pieces.flatten) ∨
+      ∃ p ∈ offers, CollisionIn H (partPre H pieces.length p) (rootPre H pieces.length pieces) := by
+  by_cases hex : ∃ p ∈ offers, CollisionIn H (partPre H pieces.length p) (rootPre H pieces.length pieces)
+  · right; exact hex
+  left
+  have hnone : ∀ p ∈ offers, ¬ CollisionIn H (partPre H pieces.length p)
+        (rootPre H pieces.length pieces) := by
+    intro p hp hc; exact hex ⟨p, hp, hc⟩
+  have hinit : Good H pieces (fromHeader pieces.length (root H pieces)) := by
+    refine ⟨rfl, rfl, by simp [fromHeader], ?_⟩
+    intro i q hq
+    simp [fromHeader, List.getElem?_replicate] at hq
+  have hall : ∀ (os : List Part) (ps : PartSet), (∀ p ∈ os, ¬ CollisionIn H (partPre H pieces.length p)
+        (rootPre H pieces.length pieces)) → Good H pieces ps → Good H pieces (addAll H ps os) := by
+    intro os
+    induction os with
+    | nil => intro ps _ h; exact h
+    | cons o os ih =>
+      intro ps hn h
+      exact ih _ (fun p hp => hn p (List.mem_cons_of_mem _ hp))
+        (good_step_traced H L hL hlen pieces hne ps o h (hn o (List.mem_cons_self)))
+  have hfin := hall offers _ hnone hinit
+  generalize addAll H (fromHeader pieces.length (root H pieces)) offers = fin at *
+  obtain ⟨h1, _, h3, h4⟩ := hfin
+  have hfull : ∀ i, i < fin.parts.length → ∃ q, fin.parts[i]? = some (some q) := by
+    have hc : (fin.parts.filter Option.isSome).length = fin.parts.length := by
+      have := hcomplete
+      simp [isComplete, count] at this
+      omega
+    have hallsome : ∀ o ∈ fin.parts, o.isSome = true := List.length_filter_eq_length_iff.mp hc
+    intro i hi
+    have hm := hallsome fin.parts[i] (List.getElem_mem hi)
+    rcases hq : fin.parts[i] with _ | q
+    · rw [hq] at hm; cases hm
+    · exact ⟨q, by simp [hi, hq]⟩
+  have hmap : (fin.parts.map partBytes) = pieces := by
+    apply List.ext_getElem?
+    intro i
+    by_cases hi : i < fin.parts.length
+    · obtain ⟨q, hq⟩ := hfull i hi
+      have := h4 i q hq
+      simp [hq, this, partBytes]
+    · have h5 : pieces.length ≤ i := by omega
+      simp [List.getElem?_eq_none_iff.mpr h5, List.getElem?_eq_none_iff.mpr (Nat.le_of_not_lt hi)]
+  exact ⟨hmap, by unfold assemble; rw [hmap]⟩
+
+/-- One `PartSetReader.Read` with a non-empty buffer of `n` bytes delivers exactly the next `n` bytes
+of the concatenation of the parts (fewer only when fewer remain, an empty part in the middle is
+stepped over), leaves exactly the rest unread, and reports `io.EOF` iff fewer than `n` remained. -/
+theorem reader_read_exact (rest : List Bytes) (cur : Bytes) (n : Nat) (hn : 0 < n) :
+    (rd rest cur n).1 = (cur ++ rest.flatten).take n ∧
+    (rd rest cur n).2.1 ++ (rd rest cur n).2.2.1.flatten = (cur ++ rest.flatten).drop n ∧
+    ((rd rest cur n).2.2.2 = true ↔ (cur ++ rest.flatten).length < n) :=
+  rd_spec rest cur n hn
+
+/-- Every read schedule: whatever non-empty buffer sizes a caller of `GetReader` uses, the chunks it
+is handed, concatenated, are the first `sizes.sum` bytes of the concatenation of the parts — no gap,
+no repetition, no reordering — and the `k`-th read reports EOF exactly when the data ran out within it. -/
+theorem reader_any_schedule (ps : PartSet) (sizes : List Nat) (hp : ∀ n ∈ sizes, 0 < n) :
+    (((rdSeq sizes (readerOf ps).1 (readerOf ps).2).map Prod.fst).flatten
+        = (assemble ps).take sizes.sum) ∧
+    ∀ k, k < sizes.length →
+      ((((rdSeq sizes (readerOf ps).1 (readerOf ps).2)[k]?).map Prod.snd = some true) ↔
+        (assemble ps).length < (sizes.take (k+1)).sum) := by
+  have hasm : (readerOf ps).1 ++ (readerOf ps).2.flatten = assemble ps := by
+    unfold readerOf assemble
+    cases ps.parts.map partBytes with
+    | nil => simp
+    | cons c r => simp
+  refine ⟨?_, ?_⟩
+  · rw [rdSeq_flatten sizes hp, hasm]
+  · intro k hk
+    rw [rdSeq_eof sizes hp _ _ k hk, hasm]
+
+/-- `HasHeader` is header equality: part count AND root. -/
+theorem hasHeader_iff (ps : PartSet) (total : Nat) (hash : Bytes) :
+    hasHeader (some ps) total hash = true ↔ ps.total = total ∧ ps.hash = hash := by
+  simp [hasHeader]
+
+theorem hasHeader_nil (total : Nat) (hash : Bytes) : hasHeader none total hash = false := rfl
+
+/-- `AddPart` never changes the header of the set (whatever is delivered). -/
+theorem addAll_keeps_header (ps : PartSet) (offers : List Part) :
+    (addAll H ps offers).total = ps.total ∧ (addAll H ps offers).hash = ps.hash := by
+  induction offers generalizing ps with
+  | nil => exact ⟨rfl, rfl⟩
+  | cons o os ih =>
+    have h1 : (addPart H ps o).1.total = ps.total ∧ (addPart H ps o).1.hash = ps.hash := by
+      unfold addPart
+      split; · exact ⟨rfl, rfl⟩
+      split; · exact ⟨rfl, rfl⟩
+      split; · exact ⟨rfl, rfl⟩
+      split <;> exact ⟨rfl, rfl⟩
+    have := ih (addPart H ps o).1
+    simp only [addAll, List.foldl_cons] at this ⊢
+    exact ⟨this.1.trans h1.1, this.2.trans h1.2⟩
+
+/-- The chain consensus relies on when it keeps the part set it already holds for a committed block
+id: a set that was created from its own header, `HasHeader` the committed header
+`(pieces.length, root pieces)`, and was completed by `AddPart` reads back — under every read
+schedule — as the committed bytes, or an offered part collides with the real tree. (With the part
+count left out of `HasHeader` the conclusion `t = pieces.length` of `hasHeader_iff` is gone and a set with another
+count is kept, which can never complete.) -/
+theorem kept_set_reads_committed (L : Nat) (hL : 0 < L) (hlen : ∀ x, (H x).length = L)
+    (pieces : List Bytes) (hne : pieces ≠ []) (t : Nat) (r : Bytes) (offers : List Part)
+    (hhas : hasHeader (some (addAll H (fromHeader t r) offers)) pieces.length (root H pieces) = true)
+    (hcomplete : isComplete (addAll H (fromHeader t r) offers) = true)
+    (sizes : List Nat) (hp : ∀ n ∈ sizes, 0 < n) :
+    (((rdSeq sizes (readerOf (addAll H (fromHeader t r) offers)).1
+        (readerOf (addAll H (fromHeader t r) offers)).2).map Prod.fst).flatten
+        = pieces.flatten.take sizes.sum) ∨
+      ∃ p ∈ offers, CollisionIn H (partPre H pieces.length p) (rootPre H pieces.length pieces) := by
+  rw [hasHeader_iff] at hhas
+  obtain ⟨ht, hr⟩ := hhas
+  have hkeep := addAll_keeps_header H (fromHeader t r) offers
+  simp only [fromHeader] at hkeep
+  have ht' : t = pieces.length := by rw [← hkeep.1]; exact ht
+  have hr' : r = root H pieces := by rw [← hkeep.2]; exact hr
+  subst ht'; subst hr'
+  rcases complete_reassembles_leaves_traced H L hL hlen pieces hne offers hcomplete with ⟨_, ha⟩ | hc
+  · left
+    rw [(reader_any_schedule _ sizes hp).1, ha]
+  · right; exact hc
+
+/-! Non-vacuity of the reader theorems: a set with an empty part in the middle, read 2 bytes at a time. -/
+example : rdSeq [2, 2, 2] [1] [[], [2, 3], []] = [([1, 2], false), ([3], true), ([], true)] := by decide
 
 /-! Non-vacuity: the hypotheses are satisfiable and `added` is reachable. -/
 example : let Hx : Bytes → Bytes := fun x => [UInt8.ofNat x.length];
